@@ -64,7 +64,10 @@ Definition f_take (f : fifo) (d : nat) : fifo :=
 Definition f_drop_ok (f : fifo) (cut : nat) : bool :=
   let n := length (owed f) in
   (cut <=? n)
-  && ((cut =? n) || existsb (Nat.eqb cut) (marks f))
+  (* the cut is at the end (nothing dropped), at a flush mark, or at the very front: the property
+     lets a drop discard the head frame too as long as none of its bytes has gone out, which the
+     third conjunct checks *)
+  && ((cut =? n) || (cut =? 0) || existsb (Nat.eqb cut) (marks f))
   && (if started f then (hd n (marks f) <=? cut) else true).
 
 Definition f_drop (f : fifo) (cut : nat) : fifo :=
